@@ -7,6 +7,8 @@ import (
 	"go/types"
 	"strings"
 
+	"golang.org/x/tools/go/ssa"
+
 	"verif/checker/internal/core"
 )
 
@@ -258,73 +260,224 @@ func ruleWhoMayWrite(c *core.Ctx) {
 func ruleWriteIfNeeded(c *core.Ctx) {
 	const rule = "W3"
 	c.Rule(rule, "WriteFileIfNeeded returns without writing only on the true edge of bytes.Equal(existing, contents) over the whole file, and every other path ends in os.WriteFile(filename, contents, perm)", 3)
-	f, d, p := c.Func("internal/iocommon", "WriteFileIfNeeded")
+	f, d, _ := c.Func("internal/iocommon", "WriteFileIfNeeded")
 	if f == nil || d == nil {
 		c.Undecided(rule, "anchor/internal/iocommon.WriteFileIfNeeded", 0, "anchor function not found")
 		return
 	}
-	info := p.TypesInfo
-	params := d.Type.Params.List
-	var pnames []types.Object
-	for _, fl := range params {
-		for _, n := range fl.Names {
-			pnames = append(pnames, info.Defs[n])
-		}
-	}
-	if len(pnames) != 3 {
+	sf := c.SSAFunc(f)
+	if sf == nil || len(sf.Params) != 3 {
 		c.Undecided(rule, "anchor/internal/iocommon.WriteFileIfNeeded/signature", d.Pos(), "expected (filename, contents, perm)")
 		return
 	}
-	// 1. the existing content comes from os.ReadFile(filename)
-	var existing types.Object
-	var readErr types.Object
-	ast.Inspect(d.Body, func(n ast.Node) bool {
-		as, ok := n.(*ast.AssignStmt)
-		if !ok || len(as.Rhs) != 1 || len(as.Lhs) != 2 {
-			return true
-		}
-		call, ok := as.Rhs[0].(*ast.CallExpr)
-		if !ok {
-			return true
-		}
-		if cf := core.Callee(info, call); cf != nil && core.FullName(cf) == "os.ReadFile" && len(call.Args) == 1 && identObj(info, call.Args[0]) == pnames[0] {
-			existing = identObj(info, as.Lhs[0])
-			readErr = identObj(info, as.Lhs[1])
-		}
-		return true
-	})
-	c.Check(existing != nil, rule, "WriteFileIfNeeded/existing<-os.ReadFile(filename)", d.Pos(), "existing content is read from the target path", "the existing content is not obtained by os.ReadFile(filename)")
-	// 2. every return statement
+	filename, contents, perm := ssa.Value(sf.Params[0]), ssa.Value(sf.Params[1]), ssa.Value(sf.Params[2])
+	// decided on SSA so that `a && b`, nested ifs, else-branches, explaining locals and a predicate
+	// helper around the comparison are all the same thing
+	usesRead := false
 	nret := 0
-	ast.Inspect(d.Body, func(n ast.Node) bool {
-		ret, ok := n.(*ast.ReturnStmt)
+	for _, b := range sf.Blocks {
+		for _, ins := range b.Instrs {
+			ret, ok := ins.(*ssa.Return)
+			if !ok || len(ret.Results) != 1 {
+				continue
+			}
+			nret++
+			key := fmt.Sprintf("WriteFileIfNeeded/return#%d", nret)
+			var check func(v ssa.Value, origin *ssa.BasicBlock, depth int) string
+			check = func(v ssa.Value, origin *ssa.BasicBlock, depth int) string {
+				if phi, ok := v.(*ssa.Phi); ok && depth < 4 {
+					for i, e := range phi.Edges {
+						if why := check(e, phi.Block().Preds[i], depth+1); why != "" {
+							return why
+						}
+					}
+					return ""
+				}
+				if call, ok := v.(*ssa.Call); ok {
+					if cf := call.Common().StaticCallee(); cf != nil && cf.Object() != nil && core.FullName(cf.Object().(*types.Func)) == "os.WriteFile" {
+						a := call.Common().Args
+						if len(a) == 3 && a[0] == filename && a[1] == contents && a[2] == perm {
+							return ""
+						}
+						return "os.WriteFile is not called with (filename, contents, perm)"
+					}
+				}
+				if k, ok := v.(*ssa.Const); ok && k.IsNil() {
+					// success without writing: only where the file is known to hold `contents`
+					if guardedByEquality(sf, origin, filename, contents, &usesRead) {
+						return ""
+					}
+					return "returns success without writing, not guarded by err==nil && bytes.Equal(existing, contents): a stale file can be kept"
+				}
+				return "return is neither the os.WriteFile(filename, contents, perm) call nor the guarded skip"
+			}
+			why := check(ret.Results[0], b, 0)
+			c.Check(why == "", rule, key, ret.Pos(), "writes the new contents, or skips the write only where the existing contents were read and are equal", why)
+		}
+	}
+	c.Check(usesRead, rule, "WriteFileIfNeeded/existing<-os.ReadFile(filename)", d.Pos(), "existing content is read from the target path", "the existing content is not obtained by os.ReadFile(filename)")
+}
+
+// guardedByEquality: block b is reached only through the true outcome of a condition that implies
+// "os.ReadFile(filename) succeeded and its result equals contents".
+func guardedByEquality(fn *ssa.Function, b *ssa.BasicBlock, filename, contents ssa.Value, usesRead *bool) bool {
+	for _, ib := range fn.Blocks {
+		if len(ib.Instrs) == 0 {
+			continue
+		}
+		ifi, ok := ib.Instrs[len(ib.Instrs)-1].(*ssa.If)
 		if !ok {
+			continue
+		}
+		cond, neg := stripNot(ifi.Cond)
+		succ := ib.Succs[0]
+		if neg {
+			succ = ib.Succs[1]
+		}
+		if len(succ.Preds) != 1 || !succ.Dominates(b) {
+			continue
+		}
+		if trueImpliesEqual(cond, filename, contents, 0, usesRead) {
 			return true
 		}
-		nret++
-		key := fmt.Sprintf("WriteFileIfNeeded/return#%d", nret)
-		if len(ret.Results) == 1 {
-			if call, ok := ret.Results[0].(*ast.CallExpr); ok {
-				if cf := core.Callee(info, call); cf != nil && core.FullName(cf) == "os.WriteFile" && len(call.Args) == 3 &&
-					identObj(info, call.Args[0]) == pnames[0] && identObj(info, call.Args[1]) == pnames[1] && identObj(info, call.Args[2]) == pnames[2] {
-					c.OK(rule, key, ret.Pos(), "writes the new contents to filename")
-					return true
-				}
+	}
+	return false
+}
+
+func stripNot(v ssa.Value) (ssa.Value, bool) {
+	neg := false
+	for {
+		if u, ok := v.(*ssa.UnOp); ok && u.Op == token.NOT {
+			neg = !neg
+			v = u.X
+			continue
+		}
+		return v, neg
+	}
+}
+
+// trueImpliesEqual: whenever v is true, os.ReadFile(filename) returned no error and bytes equal to contents.
+func trueImpliesEqual(v ssa.Value, filename, contents ssa.Value, depth int, usesRead *bool) bool {
+	if depth > 3 {
+		return false
+	}
+	switch x := v.(type) {
+	case *ssa.Phi: // value form of `a && b`
+		some := false
+		for _, e := range x.Edges {
+			if k, ok := e.(*ssa.Const); ok && k.Value != nil && k.Value.String() == "false" {
+				continue
 			}
-			if tv, ok := info.Types[ret.Results[0]]; ok && tv.IsNil() {
-				// must be guarded by `err == nil && bytes.Equal(existing, contents)`
-				cond := enclosingIfConds(d.Body, ret)
-				if cond != nil && condIsFullEquality(info, cond, readErr, existing, pnames[1]) {
-					c.OK(rule, key, ret.Pos(), "skip-write return guarded by `"+types.ExprString(cond)+"`")
-				} else {
-					c.Bad(rule, key, ret.Pos(), "returns success without writing, not guarded by err==nil && bytes.Equal(existing, contents): a stale file can be kept")
-				}
-				return true
+			if !trueImpliesEqual(e, filename, contents, depth, usesRead) {
+				return false
+			}
+			some = true
+		}
+		return some
+	case *ssa.Call:
+		cf := x.Common().StaticCallee()
+		if cf == nil {
+			return false
+		}
+		if cf.Object() != nil && core.FullName(cf.Object().(*types.Func)) == "bytes.Equal" && len(x.Common().Args) == 2 {
+			a, b := x.Common().Args[0], x.Common().Args[1]
+			other := ssa.Value(nil)
+			if a == contents {
+				other = b
+			} else if b == contents {
+				other = a
+			}
+			ex, ok := other.(*ssa.Extract)
+			if !ok || ex.Index != 0 {
+				return false
+			}
+			rd, ok := ex.Tuple.(*ssa.Call)
+			if !ok || rd.Common().StaticCallee() == nil || rd.Common().StaticCallee().Object() == nil || core.FullName(rd.Common().StaticCallee().Object().(*types.Func)) != "os.ReadFile" || len(rd.Common().Args) != 1 || rd.Common().Args[0] != filename {
+				return false
+			}
+			*usesRead = true
+			// the comparison is evaluated only where the read error is nil
+			return errNilDominates(rd, x.Block())
+		}
+		// a predicate helper of the module: every return is `false` or implies equality in the helper
+		if !core.InModule(funcObj(cf)) || len(cf.Blocks) == 0 {
+			return false
+		}
+		var pf, pc ssa.Value
+		for i, a := range x.Common().Args {
+			if a == filename && i < len(cf.Params) {
+				pf = cf.Params[i]
+			}
+			if a == contents && i < len(cf.Params) {
+				pc = cf.Params[i]
 			}
 		}
-		c.Bad(rule, key, ret.Pos(), "return is neither the os.WriteFile(filename, contents, perm) call nor the guarded skip")
-		return true
-	})
+		if pf == nil || pc == nil {
+			return false
+		}
+		some := false
+		for _, b := range cf.Blocks {
+			for _, ins := range b.Instrs {
+				r, ok := ins.(*ssa.Return)
+				if !ok || len(r.Results) != 1 {
+					continue
+				}
+				if k, ok := r.Results[0].(*ssa.Const); ok && k.Value != nil && k.Value.String() == "false" {
+					continue
+				}
+				if !trueImpliesEqual(r.Results[0], pf, pc, depth+1, usesRead) {
+					return false
+				}
+				some = true
+			}
+		}
+		return some
+	}
+	return false
+}
+
+func funcObj(f *ssa.Function) *types.Func {
+	if f == nil || f.Object() == nil {
+		return nil
+	}
+	fo, _ := f.Object().(*types.Func)
+	return fo
+}
+
+// errNilDominates: block b is reached only where the error result of call rd was nil.
+func errNilDominates(rd *ssa.Call, b *ssa.BasicBlock) bool {
+	fn := rd.Parent()
+	for _, ib := range fn.Blocks {
+		if len(ib.Instrs) == 0 {
+			continue
+		}
+		ifi, ok := ib.Instrs[len(ib.Instrs)-1].(*ssa.If)
+		if !ok {
+			continue
+		}
+		cond, neg := stripNot(ifi.Cond)
+		be, ok := cond.(*ssa.BinOp)
+		if !ok || (be.Op != token.EQL && be.Op != token.NEQ) {
+			continue
+		}
+		isErr := func(v ssa.Value) bool {
+			ex, ok := v.(*ssa.Extract)
+			return ok && ex.Index == 1 && ex.Tuple == ssa.Value(rd)
+		}
+		isNil := func(v ssa.Value) bool { k, ok := v.(*ssa.Const); return ok && k.IsNil() }
+		if !((isErr(be.X) && isNil(be.Y)) || (isErr(be.Y) && isNil(be.X))) {
+			continue
+		}
+		nilOnTrue := (be.Op == token.EQL) != neg
+		succ := ib.Succs[1]
+		if nilOnTrue {
+			succ = ib.Succs[0]
+		}
+		if len(succ.Preds) == 1 && (succ == b || succ.Dominates(b)) {
+			return true
+		}
+	}
+	return false
 }
 
 func identObj(info *types.Info, e ast.Expr) types.Object {
